@@ -274,6 +274,20 @@ fn exec_steady(sc: &Scenario) -> Report {
         let t0 = sched::clock_ns();
         let mut base_pos = 0u64;
         let mut base_ns = t0;
+        // optionally the steady progress starts far away from zero (positions above 2^53 are not
+        // exact in f64): jump there, then forget the jump
+        if sc.c("base_pos") > 0 {
+            sched::advance_quiet(1_000_000);
+            let bp = sc.c("base_pos");
+            let _ = call(|| {
+                pb.set_position(bp);
+                pb.tick();
+            });
+            sched::advance_quiet(1_000_000);
+            let _ = call(|| pb.reset_eta());
+            base_pos = bp;
+            base_ns = sched::clock_ns();
+        }
         let rate = if k > 0 { k as f64 * 1000.0 } else { 1000.0 / m as f64 };
         let eps = 1e-7;
         let mut worst: f64 = 0.0;
@@ -539,6 +553,7 @@ impl Check for C09 {
             }
             1 => {
                 let mut sc = Scenario::new("C09", "steady", rng.next_u64());
+                sc.set("base_pos", *rng.pick(&[0, 0, 1 << 53, (1 << 60) + 7, 1 << 62, 1_000_000_007]));
                 if rng.chance(1, 2) {
                     sc.set("steps_per_ms", *rng.pick(&[1, 2, 7, 1000, 1_000_000]));
                 } else {
